@@ -35,6 +35,10 @@ class ConvStackAdapter:
             c = MoneyConverter(self.B)
             c.update(None, [(self.X, rate, 1)])
             self.convs[name] = c
+        self.Y = Money.new_unit('YYY', 'third', 2)
+        c4 = MoneyConverter(self.B)              # knows a rate, but none for the probed pair
+        c4.update(None, [(self.Y, 7, 1)])
+        self.convs['c4'] = c4
         self.cname = {id(c): n for n, c in self.convs.items()}
         G = QuantityMeta('G', (Quantity,), {})
         self.G = G
@@ -49,7 +53,10 @@ class ConvStackAdapter:
 
         def f3(q, u):
             return q.amount * 3 if (q.unit is g1 and u is g2) else None
-        self.gens = {'f1': f1, 'f2': f2, 'f3': f3}
+
+        def f4(q, u):
+            return q.amount * 5 if (q.unit is g1 and u is g2) else None
+        self.gens = {'f1': f1, 'f2': f2, 'f3': f3, 'f4': f4}
         self.gname = {id(f): n for n, f in self.gens.items()}
         self.blocks = []       # open generators, innermost last
 
